@@ -600,7 +600,46 @@ func (st *c16State) installFault(kind string, step int) {
 }
 
 func init() {
-	props["C16"] = &propDef{Case: c16Case}
+	props["C16"] = &propDef{Case: c16Case, Extra: c16Enumerate}
+}
+
+// c16Enumerate (thorough tier): for a handful of fixed sessions, EVERY scheduler step boundary x
+// EVERY fault kind is injected (sharded over the workers). The sessions are fixed by their case
+// index, so the enumerated space is the same for every VERIF_SEED-independent part of the evidence.
+func c16Enumerate(w *Worker) {
+	if w.Job.Tier != "thorough" || w.Job.NShards <= 0 {
+		return
+	}
+	sessions := []int{900001, 900002, 900003, 900004, 900005, 900006}
+	for _, idx := range sessions {
+		if w.expired() {
+			return
+		}
+		base := RunSpec{Scenario: "term", Index: idx}
+		res := Execute(w.t, RunSpec{Property: "C16", Scenario: "term", Seed: w.Job.Seed, Index: idx, Tier: w.Job.Tier})
+		if res.Steps < 2 || res.BubblePanic != "" {
+			continue
+		}
+		n := 0
+		for step := 1; step <= res.Steps; step++ {
+			for f := 1; f < len(c16Faults); f++ {
+				n++
+				if n%w.Job.NShards != w.Job.Shard {
+					continue
+				}
+				if w.expired() {
+					return
+				}
+				spec := base
+				spec.Params = map[string]int{"crash_step": step, "fault": f}
+				w.Exec(spec)
+				w.Out.Counters["enumerated_step_x_fault_runs"]++
+			}
+		}
+		if w.Job.Shard == 0 {
+			w.Out.Exhaustive[fmt.Sprintf("session_%d", idx)] = fmt.Sprintf("every step boundary 1..%d x every fault kind (%d) = %d runs, split over %d workers", res.Steps, len(c16Faults)-1, n, w.Job.NShards)
+		}
+	}
 }
 
 // c16Case: one fault-free session, then the same session (same seed, hence the same schedule up to
